@@ -5,9 +5,11 @@ C02, goal 3: the bodies of the parser's action methods are tied to the source.
 (`List BStmt`) per action method.  The theorems below say that *interpreting the regenerated skeleton*
 (`Model/ParserActs.lean: interpBody`) gives, for every rune and every parser state, exactly what the
 hand-written model (`Model/Parser.lean: applyAct`, `runExitFn`, `decodeLoop`, `hookParams`) gives.
-A change of a body in the source (append to another field, a reset dropped, statements swapped,
-another C0 bound, another separator/base/offset, an added statement) changes the skeleton and breaks
-the corresponding theorem here.
+A change of a body in the source that changes what it computes (append to another field, a reset
+dropped, statements swapped that do not commute, another C0 bound, another separator/base/offset, an
+added statement with an effect) breaks the corresponding `_body` theorem here; the proofs evaluate the
+interpreter on whatever was regenerated — no copy of a statement list is compared — so a reordering the
+interpreter evaluates to the same function keeps them.
 
 The last section states what the model (hence, by the above, the source) does with over-long digit
 strings: csiDispatch wraps silently (Go `int`), hook reports an error.
@@ -80,12 +82,34 @@ theorem apcUnhook_body (r : Rune) (s : PState) :
 
 /-! ### csiDispatch -/
 
-/-- The regenerated skeleton of `csiDispatch` is the one `Lemmas/ParserActs.lean` reasons about:
-    `csi := CSI{Final: r}`; move the intermediates; no parameter bytes ⇒ emit and return;
-    `csi.Parameters`, `ps := 0`, `param` initialised; the loop with `case ';'`
-    (`param += ps; Parameters += param; new param; ps = 0`), `case ':'` (`param += ps; ps = 0`),
-    `default` (`ps *= 10; ps += int(b) - 0x30`); then `param += ps; Parameters += param; emit`. -/
-theorem csiDispatch_skeleton : Gen.ParserActs.csiDispatchBody = csiBody := by decide
+/-- What was recognised in `csiDispatch`: the body has a `for i := 0; i < len(p.params); i += 1 { b := p.params[i];
+    switch b {…} }` loop; **every** such loop in it switches on exactly the separators `;` (0x3B) and `:`
+    (0x3A) and its `default` clause multiplies by 10 and subtracts the digit offset 0x30.  (What the
+    statements *compute* is `csiDispatch_loop_eq_decodeLoop` / `csiDispatch_body`, proved by evaluating
+    the interpreter on the regenerated body — not by comparing it with a copy.) -/
+theorem csiDispatch_skeleton :
+    (∃ cases dflt, BStmt.paramLoop cases dflt ∈ Gen.ParserActs.csiDispatchBody) ∧
+    ∀ cases dflt, BStmt.paramLoop cases dflt ∈ Gen.ParserActs.csiDispatchBody →
+      (∀ c, c ∈ cases.map Prod.fst ↔ (c = 0x3B ∨ c = 0x3A)) ∧
+      LoopOp.psMulConst 10 ∈ dflt ∧ LoopOp.psAddDigit 0x30 ∈ dflt := by
+  refine ⟨⟨_, _, by simp [Gen.ParserActs.csiDispatchBody]; exact ⟨rfl, rfl⟩⟩, ?_⟩
+  intro cases dflt h
+  simp [Gen.ParserActs.csiDispatchBody] at h
+  obtain ⟨rfl, rfl⟩ := h
+  simp
+
+/-- One iteration of the loop of `csiDispatch` as written in the source (`switch b`: `case ';'`,
+    `case ':'`, `default`), on **any** byte and **any** loop state. -/
+theorem csiDispatch_step (cases : List (Nat × List LoopOp)) (dflt : List LoopOp)
+    (h : BStmt.paramLoop cases dflt ∈ Gen.ParserActs.csiDispatchBody) : CsiStep cases dflt := by
+  simp [Gen.ParserActs.csiDispatchBody] at h
+  obtain ⟨rfl, rfl⟩ := h
+  intro b st
+  by_cases h1 : b = 0x3B
+  · subst h1; simp [findCase, runOps, LoopOp.run]
+  · by_cases h2 : b = 0x3A
+    · subst h2; simp [findCase, runOps, LoopOp.run]
+    · simp [findCase, h1, h2, runOps, LoopOp.run, wrap64_mul_add]
 
 /-- The `for` loop of `csiDispatch` as written in the source, run over **any** parameter bytes from
     **any** loop state `(ps, param, csi.Parameters)` and followed by the two statements after the loop,
@@ -93,32 +117,44 @@ theorem csiDispatch_skeleton : Gen.ParserActs.csiDispatchBody = csiBody := by de
 theorem csiDispatch_loop_eq_decodeLoop (cases : List (Nat × List LoopOp)) (dflt : List LoopOp)
     (h : BStmt.paramLoop cases dflt ∈ Gen.ParserActs.csiDispatchBody) (bs : List Rune) (st : LoopSt) :
     (loopRun cases dflt bs st).acc ++ [(loopRun cases dflt bs st).param ++ [(loopRun cases dflt bs st).ps]]
-      = decodeLoop bs st.ps st.param st.acc := by
-  rw [csiDispatch_skeleton] at h
-  simp [csiBody] at h
-  obtain ⟨h1, h2⟩ := h
-  subst h1 h2
-  exact loopRun_csi bs st
+      = decodeLoop bs st.ps st.param st.acc :=
+  loopRun_sem cases dflt (csiDispatch_step cases dflt h) bs st
 
 /-- `csiDispatch(r)` as written in the source = `applyAct .csiDispatch`: one `CSI` with final `r`, the
-    collected intermediates (moved out of the parser) and `decodeParams p.params` (nil when empty). -/
+    collected intermediates (moved out of the parser) and `decodeParams p.params` (nil when empty).
+    Proved by evaluating the interpreter on the regenerated statement list (the loop through
+    `csiDispatch_loop_eq_decodeLoop`). -/
 theorem csiDispatch_body (r : Rune) (s : PState) :
     interpBody Gen.ParserActs.csiDispatchBody r s = applyAct .csiDispatch r s := by
-  rw [csiDispatch_skeleton]; exact interp_csiBody r s
-
-example : BStmt.paramLoop csiCases csiDflt ∈ Gen.ParserActs.csiDispatchBody := by decide
+  obtain ⟨state, inter, params, exit, ignoreST, osc, apc, dcs⟩ := s
+  have key := fun cs d h => csiDispatch_loop_eq_decodeLoop cs d h params {}
+  cases inter <;> cases params <;>
+    simp [interpBody, Gen.ParserActs.csiDispatchBody, interpStmts, interpStmt, emitSeq, applyAct, decodeParams,
+      LoopOp.run] <;>
+    exact key _ _ (by simp [Gen.ParserActs.csiDispatchBody])
 
 /-! ### hook -/
 
-/-- The regenerated skeleton of `hook`: `p.exit = p.unhook` first; `p.dcs = DCS{Final: r, Data: make(…)}`;
-    intermediates moved into `p.dcs`; `len(p.params) == 0` ⇒ return (Parameters nil);
-    `strings.Split(string(p.params), ";")` (separator 0x3B); per field: empty ⇒ append 0 and continue,
-    `strconv.Atoi`, error ⇒ `emit(err); return`, else append the value; finally
-    `p.dcs.Parameters = params`. -/
-theorem facts_hook : Gen.ParserActs.hookBody =
-    [.setExit .unhook, .declSeq .dcs, .takeInter .dcs, .retIfNoParams, .splitParams 0x3B, .hookNewParams,
-     .hookLoop [.ifEmptyAppendContinue 0, .atoi, .ifErrEmitReturn, .appendVal], .assignDcsParams] := by
-  decide
+/-- What was recognised in `hook`: the body splits `p.params` at `;` (0x3B) — and at nothing else —
+    and has a `for _, param := range paramStr` loop.  (What the statements compute is
+    `hook_loop_eq_hookParams` / `hook_body`, by evaluating the interpreter on the regenerated body.) -/
+theorem facts_hook :
+    BStmt.splitParams 0x3B ∈ Gen.ParserActs.hookBody ∧
+    (∀ sep, BStmt.splitParams sep ∈ Gen.ParserActs.hookBody → sep = 0x3B) ∧
+    ∃ ops, BStmt.hookLoop ops ∈ Gen.ParserActs.hookBody := by
+  refine ⟨by decide, ?_, ⟨_, by simp [Gen.ParserActs.hookBody]; rfl⟩⟩
+  intro sep h
+  simpa [Gen.ParserActs.hookBody] using h
+
+/-- The body of hook's `range` loop as written in the source, on **any** field: empty ⇒ append 0 and
+    continue; `strconv.Atoi` fails ⇒ one `err` item and `return`; else append the value. -/
+theorem hook_field (ops : List HookOp) (h : BStmt.hookLoop ops ∈ Gen.ParserActs.hookBody) : HookFieldOk ops := by
+  simp [Gen.ParserActs.hookBody] at h
+  subst h
+  intro f ps
+  by_cases he : f.isEmpty = true
+  · simp [hookField, he]
+  · cases ha : atoi f <;> simp [hookField, he, ha]
 
 /-- The `range` loop of `hook` as written in the source, over any fields and from any `params`:
     without an Atoi error it appends exactly `hookParams fields`, emits nothing and falls through;
@@ -126,17 +162,29 @@ theorem facts_hook : Gen.ParserActs.hookBody =
 theorem hook_loop_eq_hookParams (ops : List HookOp) (h : BStmt.hookLoop ops ∈ Gen.ParserActs.hookBody)
     (fs : List (List Rune)) (acc : List Int) :
     (∀ l, hookParams fs = some l → hookLoopRun ops fs acc = (acc ++ l, [], false)) ∧
-    (hookParams fs = none → ∃ ps, hookLoopRun ops fs acc = (ps, [.err], true)) := by
-  rw [facts_hook] at h
-  simp at h
-  subst h
-  exact ⟨fun l hl => hookLoop_some fs acc l hl, fun hn => hookLoop_none fs acc hn⟩
+    (hookParams fs = none → ∃ ps, hookLoopRun ops fs acc = (ps, [.err], true)) :=
+  ⟨fun l hl => hookLoop_some ops (hook_field ops h) fs acc l hl,
+   fun hn => hookLoop_none ops (hook_field ops h) fs acc hn⟩
 
 /-- `hook(r)` as written in the source = `applyAct .hook` (exit function, fresh `p.dcs`, intermediates
-    moved, Split + Atoi parameters, error ⇒ one `err` item and Parameters left nil). -/
+    moved, Split + Atoi parameters, error ⇒ one `err` item and Parameters left nil).  Proved by
+    evaluating the interpreter on the regenerated statement list. -/
 theorem hook_body (r : Rune) (s : PState) :
     interpBody Gen.ParserActs.hookBody r s = applyAct .hook r s := by
-  rw [facts_hook]; exact interp_hookBody r s
+  obtain ⟨state, inter, params, exit, ignoreST, osc, apc, dcs⟩ := s
+  have hmem : ∀ ops, BStmt.hookLoop ops ∈ Gen.ParserActs.hookBody →
+      ∀ fs acc, (∀ l, hookParams fs = some l → hookLoopRun ops fs acc = (acc ++ l, [], false)) ∧
+        (hookParams fs = none → ∃ ps, hookLoopRun ops fs acc = (ps, [.err], true)) :=
+    fun ops h fs acc => hook_loop_eq_hookParams ops h fs acc
+  cases hh : hookParams (splitOn 0x3B params []) with
+  | none =>
+    obtain ⟨ps, hps⟩ := (hmem _ (by simp [Gen.ParserActs.hookBody]; rfl) (splitOn 0x3B params []) []).2 hh
+    cases inter <;> cases params <;>
+      simp_all [interpBody, Gen.ParserActs.hookBody, interpStmts, interpStmt, applyAct]
+  | some l =>
+    have := (hmem _ (by simp [Gen.ParserActs.hookBody]; rfl) (splitOn 0x3B params []) []).1 l hh
+    cases inter <;> cases params <;>
+      simp_all [interpBody, Gen.ParserActs.hookBody, interpStmts, interpStmt, applyAct]
 
 /-! ### Go `int` overflow: over-long digit strings -/
 
